@@ -57,15 +57,11 @@ func execHist(u *universe, cfgName string, ops []op, hist []int, wantParentKey s
 // visits the queued senders (set by seamActive()).
 var orderControlled = true
 
-// seamActive commits one empty block and looks whether the seam was called.
+// seamActive asks the pool of a fresh instance (empty queues) whether promoteExecutables(nil) reaches the seam.
 func seamActive(u *universe, cfgName string) bool {
 	in := u.newInst(cfgName)
 	defer in.close()
-	before := mempl.VerifC15OrderCalls
-	if _, k, w := in.apply(op{opCommitReaped, 0}, 0); k != "" {
-		vk.Fatalf("committing an empty block on the fresh chain violates: %s %s", k, w)
-	}
-	return mempl.VerifC15OrderCalls > before
+	return mempl.VerifC15SeamActive(in.c.Mempool())
 }
 
 func execHistRetry(u *universe, cfgName string, ops []op, hist []int, wantParentKey string, retries int) (out seqSucc, mismatch string, reaps int) {
